@@ -27,8 +27,8 @@
 EXTENDS Exec, Json, IOUtils
 
 Recs == ndJsonDeserialize("c12x_conf.ndjson")
-VARIABLES l, tokill
-tvars == <<vars, l, tokill>>
+VARIABLES l, tokill, early
+tvars == <<vars, l, tokill, early>>
 
 SetOf(sq) == {sq[j] : j \in DOMAIN sq}
 \* the first record lists the tasks (with their dependencies), roots and machines of all sessions
@@ -44,7 +44,7 @@ ResetAll == /\ st' = [t \in Tasks |-> "INIT"] /\ loc' = [t \in Tasks |-> NoMach]
             /\ run' = [t \in Tasks |-> Idle] /\ dis' = [t \in Tasks |-> "none"] /\ closs' = [t \in Tasks |-> 0]
             /\ kills' = 0 /\ discards' = 0
 
-TraceInit == Init /\ l = 1 /\ tokill = {} /\ TLCSet(1, 0)
+TraceInit == Init /\ l = 1 /\ tokill = {} /\ early = {} /\ TLCSet(1, 0)
 
 Stutter == UNCHANGED vars
 
@@ -57,40 +57,53 @@ TSubmit(t) == /\ st[t] \in {"INIT", "LOST"} /\ run[t].pc = "idle"
 TGrant(t, m) == /\ run[t].pc = "start"
                 /\ run' = [run EXCEPT ![t] = [pc |-> "granted", m |-> m, locs |-> <<>>]]
                 /\ UNCHANGED <<st, loc, alive, known, store, mtasks, pendlost, dis, closs, kills, discards>>
+\* the evaluator starts the executor goroutine before it logs the hand-off, so the grant can be logged first:
+\* hand-off and grant in one step; the EvalSubmit that follows for this task is then no step
+TSubmitGrant(t, m) == /\ st[t] \in {"INIT", "LOST"} /\ run[t].pc = "idle"
+                      /\ st' = [st EXCEPT ![t] = "WAITING"]
+                      /\ run' = [run EXCEPT ![t] = [pc |-> "granted", m |-> m, locs |-> <<>>]]
+                      /\ UNCHANGED <<loc, alive, known, store, mtasks, pendlost, dis, closs, kills, discards>>
 
 Match(ev) ==
   LET k == ev.ev IN
-  CASE k = "Begin" -> ResetAll /\ tokill' = {}
-    [] k = "EvalSubmit" -> (IF ev.runner THEN TSubmit(ev.t) ELSE Stutter) /\ UNCHANGED tokill
-    [] k = "BmGrant" -> TGrant(ev.t, ev.m) /\ UNCHANGED tokill
+  CASE k = "Begin" -> ResetAll /\ tokill' = {} /\ early' = {}
+    [] k = "EvalSubmit" ->
+         /\ UNCHANGED tokill
+         /\ IF ~ev.runner THEN Stutter /\ UNCHANGED early
+            ELSE IF ev.t \in early THEN Stutter /\ early' = early \ {ev.t}
+            ELSE TSubmit(ev.t) /\ UNCHANGED early
+    [] k = "BmGrant" ->
+         /\ UNCHANGED tokill
+         /\ IF run[ev.t].pc = "start" THEN TGrant(ev.t, ev.m) /\ UNCHANGED early
+            ELSE TSubmitGrant(ev.t, ev.m) /\ early' = early \cup {ev.t}
     [] k = "BmCall" ->
          /\ run[ev.t].m = ev.m /\ Call(ev.t) /\ run'[ev.t].pc = "called"
-         /\ {run'[ev.t].locs[d] : d \in Deps[ev.t]} = SetOf(ev.machines) /\ UNCHANGED tokill
+         /\ {run'[ev.t].locs[d] : d \in Deps[ev.t]} = SetOf(ev.machines) /\ UNCHANGED <<tokill, early>>
     [] k = "BmReply" ->
          /\ run[ev.t].m = ev.m /\ Work(ev.t)
-         /\ run'[ev.t].pc = (IF ev.err = "nil" THEN "done" ELSE "fail") /\ UNCHANGED tokill
-    [] k = "BmSetLoc" -> run[ev.t].m = ev.m /\ SetLoc(ev.t) /\ UNCHANGED tokill
+         /\ run'[ev.t].pc = (IF ev.err = "nil" THEN "done" ELSE "fail") /\ UNCHANGED <<tokill, early>>
+    [] k = "BmSetLoc" -> run[ev.t].m = ev.m /\ SetLoc(ev.t) /\ UNCHANGED <<tokill, early>>
     [] k = "SmAssign" ->
          /\ run[ev.t].m = ev.m /\ known[ev.m] = ev.lost
-         /\ (AssignOk(ev.t) \/ Assign(ev.t)) /\ UNCHANGED tokill
+         /\ (AssignOk(ev.t) \/ Assign(ev.t)) /\ UNCHANGED <<tokill, early>>
     [] k = "TaskState" ->
-         /\ UNCHANGED tokill
+         /\ UNCHANGED <<tokill, early>>
          /\ CASE ev.st = "OK" -> IF Atomic THEN Stutter ELSE (SetOk(ev.t) \/ (st[ev.t] = "OK" /\ Stutter))
               [] ev.st = "LOST" -> \/ SetLost(ev.t)
                                    \/ MonitorMark(ev.t)
                                    \/ st[ev.t] = "LOST" /\ run[ev.t].pc \notin {"fail", "granted"} /\ ev.t \notin pendlost /\ Stutter
               [] OTHER -> Stutter
-    [] k = "SmLost" -> MonitorBegin(ev.m) /\ mtasks[ev.m] = SetOf(ev.tasks) /\ UNCHANGED tokill
-    [] k = "BmDiscardClaim" -> DiscardClaim(ev.t) /\ UNCHANGED tokill
+    [] k = "SmLost" -> MonitorBegin(ev.m) /\ mtasks[ev.m] = SetOf(ev.tasks) /\ UNCHANGED <<tokill, early>>
+    [] k = "BmDiscardClaim" -> DiscardClaim(ev.t) /\ UNCHANGED <<tokill, early>>
     [] k = "SmDiscard" ->
          /\ loc[ev.t] = ev.m /\ (ev.t \in mtasks[ev.m]) = ev.owned
-         /\ DiscardDo(ev.t) /\ UNCHANGED tokill
-    [] k = "HKill" -> Stutter /\ tokill' = tokill \cup {ev.m}
-    [] OTHER -> Stutter /\ UNCHANGED tokill
+         /\ DiscardDo(ev.t) /\ UNCHANGED <<tokill, early>>
+    [] k = "HKill" -> Stutter /\ tokill' = tokill \cup {ev.m} /\ UNCHANGED early
+    [] OTHER -> Stutter /\ UNCHANGED <<tokill, early>>
 
 Consume == l <= Len(Recs) /\ Match(Recs[l]) /\ l' = l + 1
 \* a machine the harness is killing dies at some point after the kill was started
-Silent == \E m \in tokill : Kill(m) /\ tokill' = tokill \ {m} /\ l' = l
+Silent == \E m \in tokill : Kill(m) /\ tokill' = tokill \ {m} /\ l' = l /\ UNCHANGED early
 TraceNext == Consume \/ Silent
 TraceSpec == TraceInit /\ [][TraceNext]_tvars
 
